@@ -86,6 +86,7 @@ type pathState struct {
 	fastPath  int64 // decisions settled by the byte-domain fast path
 	termLimit int64
 	termMsg   string
+	addrIDs   map[*value]uintptr // reflect.Value.UnsafeAddr identities
 	asserts   int64
 	trackPoss bool
 	possDiff  bool
